@@ -141,6 +141,10 @@ func genHTTPEvent(t *rapid.T, at int64) (event, string) {
 		}
 	}
 	e.Remote = rapid.SampledFrom([]string{"203.0.113.9:1234", "[2001:db8::1]:443", "not-an-address", ""}).Draw(t, "remote")
+	if rapid.IntRange(0, 3).Draw(t, "chunked") == 0 {
+		e.Chunked = true
+		lbl += ", length not announced"
+	}
 	return e, lbl
 }
 
